@@ -246,6 +246,7 @@ Definition sstep (t : sst) (ea : event * obs) : sst * N :=
        | Forged _ => [(12, c_inert b a)]
        | Replay _ => [(13, c_inert b a)]
        | Restart => [(14, c_restart a)]
+       | Keepalive => [(15, c_send t1 b a); (16, c_frame b a)]   (* a keepalive is a send like any other *)
        end) in
   (* bookkeeping for the next step *)
   let promoted :=
